@@ -453,7 +453,7 @@ def gen_case(rng, tier):
 
 
 def generate(rng, tier):
-    n = 700 if tier == "quick" else 12000
+    n = 2000 if tier == "quick" else 25000
     for _ in range(n):
         yield gen_case(rng, tier)
 
